@@ -37,6 +37,7 @@ fn documents() -> Vec<(&'static str, Vec<u8>)> {
         ("unicode", "<svg><rect wh=\"30 10\" text=\"é😀 — ünï\"/></svg>".as_bytes().to_vec()),
         ("multiline", b"<svg>\n\n  <rect wh=\"20\" text=\"l1\\nl2\"/>   \n\n</svg>".to_vec()),
         ("comments", b"<!-- pre --><svg><!-- in --><rect wh=\"5\" _=\"note -- here\"/></svg>".to_vec()),
+        ("local-styles", b"<svg><config use-local-styles=\"true\"/><rect wh=\"5\" class=\"d-red\"/></svg>".to_vec()),
         // failing documents
         ("fail-expr", b"<svg><rect wh=\"{{1+}}\"/></svg>".to_vec()),
         ("fail-ref", b"<svg><rect xy=\"#nope|h\" wh=\"5\"/></svg>".to_vec()),
